@@ -404,9 +404,12 @@ def level_growth(facts):
     """the vector of levels / compactors (whose elements hold retained items) only ever grows outside constructors, assignment and
     reset: every size-changing call on it in a mutator is push_back / emplace_back.  A resize / erase / clear there can drop levels
     together with the items they hold while n and num_retained still count them."""
+    from astu import root_views
     fns = qfns(facts)
     out = []
-    for pat, fn in sorted(fns.items()):
+    # looked at per operation with the private helpers of the class seen through: a growth site that several operations share
+    # through a helper counts once per operation, wherever the statements are written
+    for fn, body in root_views(fns):
         if fn.get("special") or fn["kind"] == "ctor" or fn["name"] in ("reset", "operator=", "deserialize"):
             continue
         idx = [0]
@@ -421,7 +424,7 @@ def level_growth(facts):
                         out.append(ob("levels.grow-only", key, n["loc"], "discharged", "%s.%s(...) adds a level" % (o["f"], n["cname"]), fn["qname"]))
                     else:
                         out.append(ob("levels.grow-only", key, n["loc"], "violated", "%s.%s(...) in a mutator can shrink the vector of levels: levels above the new size are dropped with the items they hold while n_ / num_retained_ still count them (all sibling sites only push_back under a size test)" % (o["f"], n["cname"]), fn["qname"]))
-        walk(fn["body"], v)
+        walk(body, v)
     return out
 
 
